@@ -172,7 +172,12 @@ def push_service(ctx, rng, n):
                 raise RuntimeError("send failed")
     saved_stub, saved_conv = ps.SnapshotServiceStub, push_mod.convert_snapshot
     ps.SnapshotServiceStub = Stub
-    push_mod.convert_snapshot = lambda s: None if s.kind == "unconvertible" else dict(id=s.id, fail_send=s.kind == "fail_send")
+    converted_on = []
+
+    def fake_convert(s):
+        converted_on.append(threading.get_ident())          # WHERE the conversion runs is part of the statement
+        return None if s.kind == "unconvertible" else dict(id=s.id, fail_send=s.kind == "fail_send")
+    push_mod.convert_snapshot = fake_convert
     try:
         for k in range(n):
             th = TaskHandler()
@@ -180,6 +185,7 @@ def push_service(ctx, rng, n):
             svc = PushService(grpc, th)
             kinds = [rng.choice(["ok", "ok", "ok", "unconvertible", "fail_send"]) for _ in range(rng.choice([1, 3, 8, 20]))]
             del sent[:]
+            del converted_on[:]
             app = threading.get_ident()
             for i, kind in enumerate(kinds):
                 svc.push_snapshot(type("S", (), {"id": i, "kind": kind})())
@@ -199,6 +205,11 @@ def push_service(ctx, rng, n):
                 ctx.fail("snapshots sent: %r, handed over (convertible): %r" % (sorted(ids), want), j, tag="delivery-count")
             if any(t == app for _c, t, _m in sent):
                 ctx.fail("a snapshot was sent on the application thread", j, tag="on-app-thread")
+            if any(t == app for t in converted_on):
+                ctx.fail("%d of %d snapshots were converted on the application thread (the thread that hit the tracepoint), not on a worker" % (
+                    sum(1 for t in converted_on if t == app), len(converted_on)), j, tag="converted-on-app-thread")
+            if len(converted_on) != len(kinds):
+                ctx.fail("%d snapshots handed over, %d conversions" % (len(kinds), len(converted_on)), j, tag="conversion-count")
             if any(m != [("authorization", "tok")] for _c, _t, m in sent):
                 ctx.fail("a send request did not carry the auth metadata", j, tag="auth")
             try:
